@@ -765,6 +765,8 @@ mod, cls, meth, inp_path, out_path = sys.argv[1:6]
 M = importlib.import_module(mod)
 C = getattr(M, cls)
 F = getattr(C, meth)
+if hasattr(F, "cache_info") and hasattr(F, "__wrapped__"):
+    F = F.__wrapped__       # the region under contract is the method body; the memoising wrapper is the subject of C01
 cases = pickle.load(open(inp_path, "rb"))
 res = []
 class _Bare(C):
@@ -899,6 +901,7 @@ def run_rtc_py(job, src_dir, count=12, seed=0, extra_inputs=()):
             if not r["ok"]:
                 kind = r["error"].split(":")[0]
                 out["raised"][kind] = out["raised"].get(kind, 0) + 1
+                out.setdefault("raised_example", r["error"][:300])
                 continue
             selfobj = _Stub()
             env_in = {}
